@@ -14,3 +14,12 @@ Theorem c05_end_is_permanent : forall e, src_env e -> forall progs, wf_progs pro
 Proof. exact all_C05. Qed.
 Print Assumptions c05_end_is_permanent.
 
+(** the wrapper over an arbitrary iterator that need NOT be fused: [iter_env] says nothing about [e_gap]
+    (the calls of the wrapped next() that answer None although elements remain), and nothing about it is
+    assumed.  Once a pull has reported the end, no call made afterwards delivers an element, reports
+    anything but the end, or announces a positive length -- even if the wrapped iterator would yield again *)
+Theorem c05_end_is_permanent_any_iterator : forall e, iter_env e -> forall progs, wf_progs progs -> forall sched,
+  nowrap (c_labels (exec e (init progs) sched)) ->
+  check_prop 5 e (c_trace (exec e (init progs) sched)) (c_labels (exec e (init progs) sched)) = true.
+Proof. exact iter_C05. Qed.
+Print Assumptions c05_end_is_permanent_any_iterator.
